@@ -574,6 +574,8 @@ class KInterp:
         s.mod = mod
         s.lane = lane
         s.all_lanes = all_lanes      # track every element of a vector (routines that combine lanes), not only `lane`
+        s.focus = None               # with all_lanes: element-wise operations are followed for this element index only (the others
+                                     # become untracked), which keeps case splits from multiplying across independent lanes
         s.summ = summaries or {}
         s.gconst = globals_ or {}
         s.n = 0
@@ -794,6 +796,8 @@ class KInterp:
         n = n or max(len(v) for v in vs if isinstance(v, list))
         vs = [v if isinstance(v, list) else [v] * n for v in vs]
         idx = [i for i in range(n) if all(v[i] is not None for v in vs)]
+        if s.focus is not None:
+            idx = [i for i in idx if i == s.focus]
         # sequentially over tracked elements, threading the alternatives
         alts = [(st.case, [None] * n)]
         for i in idx:
@@ -1002,6 +1006,13 @@ class KInterp:
                         out[i] = lo.v
                     else:
                         out[i] = ('pair', hi, lo)
+                return out
+            if nd % ns == 0 and all(x is None or (isinstance(x, Mask) and x.b is not None) for x in v):
+                # lanes that are all-ones / zero masks split into narrower all-ones / zero masks (movemask over bytes)
+                k_ = nd // ns
+                out = []
+                for x in v:
+                    out += [None if x is None else Mask(x.b, x.w // k_)] * k_
                 return out
             raise Undecided('vector bitcast %s -> %s' % (ir.tystr(stt), ir.tystr(dt)))
         if stt[0] == 'v' and dt[0] == 'i':
@@ -1265,6 +1276,18 @@ class KInterp:
                     return [(c, x or y)]
                 if isinstance(x, Mask) and isinstance(y, Mask):
                     return [(c, Mask(x.b or y.b, x.w))]
+            if isinstance(a, KV) and isinstance(b, KV) and not a.sh and not b.sh and a.w == b.w and a.lo >= 0 and b.lo >= 0:
+                # bitwise or of two non-negative values: a fresh symbol o with max(a, b) <= o <= a + b (and o < 2^w).  Exact enough
+                # for guards of the form (x | y | ...) < 2^k, which hold iff every member is below 2^k; the defining equation is
+                # kept for the witness search (concrete evaluation)
+                cc = c.copy()
+                o = cc.fresh('o', max(a.lo, b.lo), min((1 << a.w) - 1, a.hi + b.hi))
+                cc.defs.append(('or', o, a.p, b.p))
+                op_ = Poly.var(o)
+                cc.cons.append((op_ - a.p, '>=0'))
+                cc.cons.append((op_ - b.p, '>=0'))
+                cc.cons.append((a.p + b.p - op_, '>=0'))
+                return [(cc, KV(op_, max(a.lo, b.lo), min((1 << a.w) - 1, a.hi + b.hi), 0, None, a.w))]
         raise Undecided('bit operation %s on %r, %r' % (op, a, b))
 
     def shift(s, c, op, v, k):
@@ -1334,6 +1357,16 @@ class KInterp:
             if isinstance(a0, list) or isinstance(a1, list):
                 return s.vmap(st, ins.dst, [a0, a1], pick, len(a0) if isinstance(a0, list) else len(a1))
             return s.setv(st, ins.dst, pick(st.case, a0, a1))
+        if name in ('llvm.x86.avx2.pmovmskb', 'llvm.x86.sse2.pmovmskb.128'):
+            # one bit per byte: its top bit; defined here for bytes that are all-ones / zero masks
+            bits = 0
+            for i, x in enumerate(args[0]):
+                if isinstance(x, Mask) and x.b is not None:
+                    bits |= (1 << i) if x.b else 0
+                else:
+                    raise Undecided('movemask over bytes that are not decided masks')
+            st.env[ins.dst] = const(bits, 32)
+            return
         m = re.match(r'llvm\.x86\.avx(2|512)\.ps(r|l)lv\.q(\.256|\.512)?$', name)
         if m:
             # per-element shift by a per-element count (constant counts only)
@@ -1348,6 +1381,21 @@ class KInterp:
                     return [(case, const(0, 64))]
                 return s._shift1(case, opn, x, const(kk.cval(), 64))
             return s.vmap(st, ins.dst, [v, k], sh1, len(v))
+        if name == 'llvm.x86.avx512.vpermi2var.q.512':
+            a_, idx_, b_ = args
+            out = []
+            for i in range(8):
+                kk = idx_[i] if isinstance(idx_, list) else idx_
+                if kk is None:
+                    out.append(None)
+                    continue
+                kk = s.tokv(st.case, s.resolve(st.case, kk))
+                if not kk.isconst():
+                    raise Undecided('permute with a symbolic index')
+                k_ = kk.cval() & 15
+                out.append(a_[k_] if k_ < 8 else b_[k_ - 8])
+            st.env[ins.dst] = out
+            return
         m = re.match(r'llvm\.x86\.avx512\.permvar\.di\.(256|512)$', name)
         if m:
             a_, idx_ = args
@@ -1561,7 +1609,7 @@ def guided_witness(case, extra, check, seed=0, budget=3000):
     cons = list(case.cons) + list(extra)
     derived = set()
     for d in case.defs:
-        if d[0] == 'shr':
+        if d[0] in ('shr', 'or'):
             derived.add(d[1])
         elif d[0] == 'limbs':
             derived.update(d[2])
@@ -1578,6 +1626,8 @@ def guided_witness(case, extra, check, seed=0, budget=3000):
         for d in case.defs:
             if d[0] == 'shr':
                 a[d[1]] = d[2].ev(a) >> d[3]
+            elif d[0] == 'or':
+                a[d[1]] = d[2].ev(a) | d[3].ev(a)
             elif d[0] == 'limbs':
                 v = d[1].ev(a)
                 for sy, (shift, width) in zip(d[2], d[3]):
@@ -1631,7 +1681,7 @@ def witness_search(case, diff, seed=0, tries=600, exact=False, pred=None):
     rnd = random.Random(seed)
     derived = set()
     for d in case.defs:
-        if d[0] == 'shr':
+        if d[0] in ('shr', 'or'):
             derived.add(d[1])
         elif d[0] == 'limbs':
             derived.update(d[2])
@@ -1641,6 +1691,8 @@ def witness_search(case, diff, seed=0, tries=600, exact=False, pred=None):
         for d in case.defs:
             if d[0] == 'shr':
                 a[d[1]] = d[2].ev(a) >> d[3]
+            elif d[0] == 'or':
+                a[d[1]] = d[2].ev(a) | d[3].ev(a)
             elif d[0] == 'limbs':
                 v = d[1].ev(a)
                 for sy, (shift, width) in zip(d[2], d[3]):
@@ -1733,4 +1785,21 @@ def witness_search(case, diff, seed=0, tries=600, exact=False, pred=None):
             w = guided_witness(case, extra, chk, seed)
             if w is not None:
                 return w
-    return guided_witness(case, [], chk, seed, budget=1500)
+    w = guided_witness(case, [], chk, seed, budget=1500)
+    if w is not None:
+        return w
+    # a small operand (an 8-bit coefficient, a shift count) multiplies a large one: with the small one pinned every product is
+    # linear and the constructive search succeeds or fails at once - try each of its values
+    small = [x for x in free if 1 <= case.box[x][1] - case.box[x][0] <= 255]
+    for x in small[:2]:
+        l, h = case.box[x]
+        vals = list(range(l, h + 1))
+        # spread the order: extremes and odd multipliers first
+        vals.sort(key=lambda v: (v % 2 == 0, -v))
+        for v in vals:
+            c2 = case.copy()
+            c2.box[x] = (v, v)
+            w = guided_witness(c2, [], chk, seed, budget=300)
+            if w is not None:
+                return w
+    return None
